@@ -13,6 +13,7 @@ import (
 
 	"github.com/prometheus/prometheus/tsdb"
 	"github.com/prometheus/prometheus/tsdb/chunkenc"
+	"github.com/prometheus/prometheus/tsdb/chunks"
 	"github.com/prometheus/prometheus/tsdb/index"
 
 	"verif/sim/core/simfs"
@@ -244,6 +245,16 @@ func (e *exec) logDamageCheck(img, where string) {
 		}
 		how := "truncate"
 		pos := e.rng.Intn(used)
+		if class == "chunks_head" && e.rng.Chance(0.4) {
+			// cut exactly where a chunk record starts (uniform offsets almost never land there)
+			if offs := headChunkOffsets(filepath.Join(dir, "chunks_head"), filepath.Base(target), e.scratch("hcoffs")); len(offs) > 0 {
+				pos = offs[e.rng.Intn(len(offs))]
+				b = b[:pos]
+				e.res.Count("fault:chunks_head-cut-at-chunk-start", 1)
+				how = "truncate"
+				goto damaged
+			}
+		}
 		if e.rng.Chance(0.5) {
 			b = b[:pos]
 		} else {
@@ -258,6 +269,7 @@ func (e *exec) logDamageCheck(img, where string) {
 				b[pos] ^= 0x10
 			}
 		}
+	damaged:
 		if err := os.WriteFile(target, b, 0o666); err != nil {
 			panic("harness: " + err.Error())
 		}
@@ -311,7 +323,8 @@ func (e *exec) logDamageCheck(img, where string) {
 			must := qresult{}
 			for k, v := range full {
 				for _, s := range v {
-					if !e.cellOOO(k, s.T) && e.cellKF(k, s.T) == "" {
+					// the intact out-of-order WAL holds the out-of-order head data as well when only a head chunk file is hurt
+					if (!e.cellOOO(k, s.T) || class == "chunks_head") && e.cellKF(k, s.T) == "" {
 						must[k] = append(must[k], s)
 					}
 				}
@@ -455,6 +468,29 @@ func (e *exec) notEverWritten(got qresult) string {
 		}
 	}
 	return ""
+}
+
+// headChunkOffsets returns the file offsets at which the chunk records of one head chunk file start.
+func headChunkOffsets(dir, file, scratch string) []int {
+	defer os.RemoveAll(scratch)
+	if err := simfs.CopyTree(dir, filepath.Join(scratch, "chunks_head")); err != nil {
+		return nil
+	}
+	cdm, err := chunks.NewChunkDiskMapper(nil, filepath.Join(scratch, "chunks_head"), chunkenc.NewPool(), chunks.DefaultWriteBufferSize, chunks.DefaultWriteQueueSize)
+	if err != nil {
+		return nil
+	}
+	defer cdm.Close()
+	var want int
+	fmt.Sscanf(file, "%d", &want)
+	var offs []int
+	_ = cdm.IterateAllChunks(func(_ chunks.HeadSeriesRef, ref chunks.ChunkDiskMapperRef, _, _ int64, _ uint16, _ chunkenc.Encoding, _ bool) error {
+		if seq, off := ref.Unpack(); seq == want {
+			offs = append(offs, off)
+		}
+		return nil
+	})
+	return offs
 }
 
 // anyMultiRef reports whether some series has been known under several refs (duplicate series records: listed findings
